@@ -19,6 +19,8 @@ pub(crate) fn argument(p: &mut Parser, constness: Constness) {
     if let Some(T![:]) = p.peek() {
         p.bump(S![:]);
         value::value(p, constness, false);
+    } else {
+        p.err("expected :");
     }
 }
 
